@@ -344,6 +344,17 @@ impl Check {
         S::Value: Debug + Serialize + Clone,
         F: Fn(&S::Value) -> CaseResult,
     {
+        if let Some(only) = self.settings.extra.get("only") {
+            if only != sub {
+                return;
+            }
+        }
+        let cases = self
+            .settings
+            .extra
+            .get("cases")
+            .and_then(|c| c.parse::<u32>().ok())
+            .unwrap_or(cases);
         let mut runner = self.settings.runner(sub, cases);
         let failed = Cell::new(false);
         let evals = Cell::new(0u64);
